@@ -222,6 +222,13 @@ def fixed_cases():
     out.append({"files": {"proj/Main.bloch": f([], ["S:a.C"], 1), "proj/a/C.bloch": f(["a"], [], 1)}, "entry": "proj/Main.bloch", "search": [], "cwd": "proj"})
     out.append({"files": {"proj/Main.bloch": f([], ["S:a.C"], 1), "proj/a/C.bloch": f(["a"]), "lib1/bloch/lang/Object.bloch": f(["bloch", "lang"])},
                 "entry": "proj/Main.bloch", "search": ["lib1"], "cwd": "work"})
+    # the implicitly loaded root module with a wrong / missing package line, imported by nobody: refused like an import of it
+    out.append({"files": {"proj/Main.bloch": f([], [], 1), "lib1/bloch/lang/Object.bloch": f(["wrong", "pkg"])},
+                "entry": "proj/Main.bloch", "search": ["lib1"], "cwd": "work"})
+    out.append({"files": {"proj/Main.bloch": f([], [], 1), "proj/bloch/lang/Object.bloch": f([])},
+                "entry": "proj/Main.bloch", "search": [], "cwd": "work"})
+    out.append({"files": {"proj/Main.bloch": f([], [], 1), "lib1/bloch/lang/Object.bloch": f(["bloch"]), "lib2/bloch/lang/Object.bloch": f(["bloch", "lang"])},
+                "entry": "proj/Main.bloch", "search": ["lib1", "lib2"], "cwd": "work"})
     # 'import bloch;' is the module bloch.bloch of the default package: importer's directory first, like any other name
     out.append({"files": {"proj/Main.bloch": f([], ["S:bloch"], 1), "proj/bloch.bloch": f([]), "lib1/bloch.bloch": f([])},
                 "entry": "proj/Main.bloch", "search": ["lib1"], "cwd": "work"})
